@@ -53,12 +53,39 @@ int sqfs_meta_writer_append(sqfs_meta_writer_t *m, const void *data, size_t size
 	return 0;
 }
 
+#ifdef C01_SEEKABLE
+/* The capture is one stretch of an uncompressed metadata block: it starts at
+ * (g_cap_base_block, g_cap_base_off) for the writer and at
+ * (g_cap_base_block + g_cap_rd_shift, g_cap_base_off) for the reader (the
+ * table start the reader adds). Seeking inside the stretch moves the read
+ * cursor; anywhere else fails. */
+static sqfs_u64 g_cap_base_block, g_cap_rd_shift;
+static sqfs_u32 g_cap_base_off;
+
+void sqfs_meta_writer_get_position(const sqfs_meta_writer_t *m, sqfs_u64 *block_start,
+				   sqfs_u32 *offset)
+{
+	(void)m;
+	*block_start = g_cap_base_block;
+	*offset = g_cap_base_off + (sqfs_u32)g_cap_wr;
+}
+#endif
+
 int sqfs_meta_reader_seek(sqfs_meta_reader_t *m, sqfs_u64 block_start, size_t offset)
 {
 	(void)m;
 	++g_cap_seeks;
 	g_seek_block = block_start;
 	g_seek_off = offset;
+#ifdef C01_SEEKABLE
+	if (block_start != g_cap_base_block + g_cap_rd_shift || offset < g_cap_base_off ||
+	    offset - g_cap_base_off > g_cap_wr) {
+		g_cap_underrun = true;
+		return SQFS_ERROR_OUT_OF_BOUNDS;
+	}
+	g_cap_rd = offset - g_cap_base_off;
+	g_seek_off = g_cap_base_off;
+#endif
 	return 0;
 }
 
